@@ -72,7 +72,7 @@ def decRefArray : List Xml → R (List (Option Path))
       let rest ← decRefArray ks
       pure (some p :: rest)
     else if k.name = "VALUE.NULL".toList then do
-      let _ ← checkNode k "VALUE.NULL" [] [] (some []) false
+      let _ ← checkG "parse_value_null" k
       let rest ← decRefArray ks
       pure (none :: rest)
     else perr
@@ -85,8 +85,8 @@ def oneChild (ks : List Xml) (acceptable : List String) : R Xml :=
 
 /-- mirrors parse_value_objectwithpath / parse_value_objectwithlocalpath: two children, (class path,
     CLASS) when the first is named `cpName`, else (instance path named `ipName`, INSTANCE) -/
-def decObjWithPath (elemName cpName ipName : String) (t : Xml) : R PV := do
-  let (_, ks) ← checkNode t elemName [] [] none false
+def decObjWithPath (fn cpName ipName : String) (t : Xml) : R PV := do
+  let (_, ks) ← checkG fn t
   match Xml.elemKids ks with
   | [p, o] =>
     if p.name = cpName.toList then do
@@ -109,14 +109,14 @@ def decValueElem (t : Xml) : R PV :=
       let s ← decValueText t
       pure (.str s)
     else if n = "VALUE.ARRAY".toList then do
-      let (_, aks) ← checkNode t "VALUE.ARRAY" [] [] none false
+      let (_, aks) ← checkG "parse_value_array" t
       let l ← decArrayRaw aks
       pure (.strs l)
     else if n = "VALUE.REFERENCE".toList then do
       let p ← Resp.decValueReference C.toDecCodec t
       pure (.path p)
     else if n = "VALUE.REFARRAY".toList then do
-      let (_, aks) ← checkNode t "VALUE.REFARRAY" [] [] none false
+      let (_, aks) ← checkG "parse_value_refarray" t
       let l ← decRefArray C aks
       pure (.paths l)
     else if n = "CLASSNAME".toList ∨ n = "INSTANCENAME".toList ∨ n = "INSTANCEPATH".toList then do
@@ -132,7 +132,7 @@ def decValueElem (t : Xml) : R PV :=
       let q ← Resp.decQualDecl C.toDecCodec t
       pure (.qdecl q)
     else if n = "VALUE.NAMEDINSTANCE".toList then do
-      let _ ← checkNode t "VALUE.NAMEDINSTANCE" [] [] none false
+      let _ ← checkG "parse_value_namedinstance" t
       match Xml.elemKids ks with
       | [p, i] => do
         let path ← Resp.decInstanceName C.toDecCodec p
@@ -140,7 +140,7 @@ def decValueElem (t : Xml) : R PV :=
         pure (.inst (withPath inst path))
       | _ => perr
     else if n = "VALUE.INSTANCEWITHPATH".toList then do
-      let _ ← checkNode t "VALUE.INSTANCEWITHPATH" [] [] none false
+      let _ ← checkG "parse_value_instancewithpath" t
       match Xml.elemKids ks with
       | [p, i] => do
         let path ← dPathNamed C "INSTANCEPATH" p
@@ -148,12 +148,12 @@ def decValueElem (t : Xml) : R PV :=
         pure (.inst (withPath inst path))
       | _ => perr
     else if n = "VALUE.OBJECTWITHPATH".toList then
-      decObjWithPath C fuel "VALUE.OBJECTWITHPATH" "CLASSPATH" "INSTANCEPATH" t
+      decObjWithPath C fuel "parse_value_objectwithpath" "CLASSPATH" "INSTANCEPATH" t
     else if n = "VALUE.OBJECTWITHLOCALPATH".toList then
-      decObjWithPath C fuel "VALUE.OBJECTWITHLOCALPATH" "LOCALCLASSPATH" "LOCALINSTANCEPATH" t
+      decObjWithPath C fuel "parse_value_objectwithlocalpath" "LOCALCLASSPATH" "LOCALINSTANCEPATH" t
     else if n = "VALUE.OBJECT".toList then do
-      let _ ← checkNode t "VALUE.OBJECT" [] [] none false
-      let k ← oneChild ks ["CLASS", "INSTANCE"]
+      let _ ← checkG "parse_value_object" t
+      let k ← oneChild ks (kidsG "parse_value_object" "one_child")
       if k.name = "CLASS".toList then do
         let c ← dCls C fuel k
         pure (.tupObj (.cls c))
@@ -161,16 +161,13 @@ def decValueElem (t : Xml) : R PV :=
         let i ← dInst C fuel k
         pure (.tupObj (.inst i))
     else if n = "OBJECTPATH".toList then do
-      let _ ← checkNode t "OBJECTPATH" [] [] none false
-      let k ← oneChild ks ["INSTANCEPATH", "CLASSPATH"]
+      let _ ← checkG "parse_objectpath" t
+      let k ← oneChild ks (kidsG "parse_objectpath" "one_child")
       let p ← dPath C k
       pure (.tupObj (.path p))
     else perr
 
-def iretKinds : List String :=
-  ["CLASSNAME", "INSTANCENAME", "VALUE", "VALUE.OBJECTWITHPATH", "VALUE.OBJECTWITHLOCALPATH", "VALUE.OBJECT",
-   "OBJECTPATH", "QUALIFIER.DECLARATION", "VALUE.ARRAY", "VALUE.REFERENCE", "CLASS", "INSTANCE", "INSTANCEPATH",
-   "VALUE.NAMEDINSTANCE", "VALUE.INSTANCEWITHPATH"]
+def iretKinds : List String := kidsG "parse_ireturnvalue" "list_of_same"
 
 /-- `list_of_same`: every element child has the name of the first one, which must be acceptable -/
 def listOfSame (first : Str) : List Xml → R (List PV)
@@ -185,7 +182,7 @@ def listOfSame (first : Str) : List Xml → R (List PV)
 
 /-- mirrors parse_ireturnvalue -/
 def decIReturnValue (t : Xml) : R (List PV) := do
-  let (_, ks) ← checkNode t "IRETURNVALUE" [] [] none false
+  let (_, ks) ← checkG "parse_ireturnvalue" t
   match firstElem ks with
   | none => pure []
   | some k0 =>
@@ -259,7 +256,7 @@ def decErrorInsts : List Xml → R (List Inst)
 
 /-- mirrors parse_error (after the fix: CODE must convert with int()) -/
 def decError (t : Xml) : R RspKid := do
-  let (as, ks) ← checkNode t "ERROR" ["CODE"] ["DESCRIPTION"] (some ["INSTANCE"]) false
+  let (as, ks) ← checkG "parse_error" t
   let code := getAttrD as "CODE" ""
   let _ ← catchExc [.valueError] (pyIntE code)
   let insts ← decErrorInsts C fuel ks
@@ -267,18 +264,16 @@ def decError (t : Xml) : R RspKid := do
 
 /-- mirrors parse_returnvalue -/
 def decReturnValue (t : Xml) : R RspKid := do
-  let (as, ks) ← checkNode t "RETURNVALUE" [] ["PARAMTYPE", "EmbeddedObject", "EMBEDDEDOBJECT"] none false
-  let child ← optionalChild C fuel ks ["VALUE", "VALUE.REFERENCE"]
+  let (as, ks) ← checkG "parse_returnvalue" t
+  let child ← optionalChild C fuel ks (kidsG "parse_returnvalue" "optional_child")
   let child ← if hasEmbAttr as then embPV C fuel child else pure child
   pure (.retval (Xml.attr as "PARAMTYPE".toList) child)
 
-def paramKinds : List String :=
-  ["VALUE", "VALUE.REFERENCE", "VALUE.ARRAY", "VALUE.REFARRAY", "CLASSNAME", "INSTANCENAME", "CLASS", "INSTANCE",
-   "VALUE.NAMEDINSTANCE"]
+def paramKinds : List String := kidsG "parse_paramvalue" "optional_child"
 
 /-- mirrors parse_paramvalue -/
 def decParamValue (t : Xml) : R RspKid := do
-  let (as, ks) ← checkNode t "PARAMVALUE" ["NAME"] ["TYPE", "PARAMTYPE", "EmbeddedObject", "EMBEDDEDOBJECT"] none false
+  let (as, ks) ← checkG "parse_paramvalue" t
   let child ← optionalChild C fuel ks paramKinds
   let ptype := match Xml.attr as "PARAMTYPE".toList with
     | some p => some p
@@ -314,30 +309,28 @@ def decResponseElem (t : Xml) : R Rsp :=
   | .text _ => perr
   | .elem n _ _ =>
     if n = "METHODRESPONSE".toList then do
-      let (as, ks) ← checkNode t "METHODRESPONSE" ["NAME"] [] none false
-      let kids ← decRspKids C fuel ["ERROR", "RETURNVALUE", "PARAMVALUE"] ks
+      let (as, ks) ← checkG "parse_methodresponse" t
+      let kids ← decRspKids C fuel (kidsG "parse_methodresponse" "list_of_various") ks
       pure ⟨n, getAttrD as "NAME" "", kids⟩
     else if n = "IMETHODRESPONSE".toList then do
-      let (as, ks) ← checkNode t "IMETHODRESPONSE" ["NAME"] [] none false
-      let kids ← decRspKids C fuel ["ERROR", "IRETURNVALUE", "PARAMVALUE"] ks
+      let (as, ks) ← checkG "parse_imethodresponse" t
+      let kids ← decRspKids C fuel (kidsG "parse_imethodresponse" "list_of_various") ks
       pure ⟨n, getAttrD as "NAME" "", kids⟩
     else if n = "EXPMETHODRESPONSE".toList then do
-      let (as, ks) ← checkNode t "EXPMETHODRESPONSE" ["NAME"] [] none false
-      let kids ← decRspKids C fuel ["ERROR", "IRETURNVALUE"] ks
+      let (as, ks) ← checkG "parse_expmethodresponse" t
+      let kids ← decRspKids C fuel (kidsG "parse_expmethodresponse" "list_of_various") ks
       pure ⟨n, getAttrD as "NAME" "", kids⟩
     else perr
 
 /-! ### request-side elements (a server may echo them; they are parsed before being rejected) -/
 
-def iparamKinds : List String :=
-  ["VALUE", "VALUE.ARRAY", "VALUE.REFERENCE", "INSTANCENAME", "CLASSNAME", "QUALIFIER.DECLARATION", "CLASS", "INSTANCE",
-   "VALUE.NAMEDINSTANCE"]
+def iparamKinds : List String := kidsG "parse_iparamvalue" "optional_child"
 
 /-- mirrors parse_iparamvalue (called directly: the element name is checked by check_node) -/
 def decIParamValues : List Xml → R Unit
   | [] => pure ()
   | k :: ks => do
-    let (_, kk) ← checkNode k "IPARAMVALUE" ["NAME"] [] none false
+    let (_, kk) ← checkG "parse_iparamvalue" k
     let _ ← optionalChild C fuel kk iparamKinds
     decIParamValues ks
 
@@ -365,33 +358,33 @@ def decExpParamValues : List Xml → R Unit
   | .text _ :: ks => decExpParamValues ks
   | k :: ks =>
     if k.name = "EXPPARAMVALUE".toList then do
-      let (_, kk) ← checkNode k "EXPPARAMVALUE" ["NAME"] [] (some ["INSTANCE"]) false
-      let _ ← optionalChild C fuel kk ["INSTANCE"]
+      let (_, kk) ← checkG "parse_expparamvalue" k
+      let _ ← optionalChild C fuel kk (kidsG "parse_expparamvalue" "optional_child")
       decExpParamValues ks
     else decExpParamValues ks
 
 /-- mirrors parse_simplereq / parse_imethodcall / parse_methodcall -/
 def decSimpleReq (t : Xml) : R Unit := do
-  let (_, ks) ← checkNode t "SIMPLEREQ" [] [] none false
-  let k ← oneChild ks ["IMETHODCALL", "METHODCALL"]
+  let (_, ks) ← checkG "parse_simplereq" t
+  let k ← oneChild ks (kidsG "parse_simplereq" "one_child")
   if k.name = "IMETHODCALL".toList then do
-    let (_, kk) ← checkNode k "IMETHODCALL" ["NAME"] [] none false
+    let (_, kk) ← checkG "parse_imethodcall" k
     match Xml.elemKids kk with
     | [] => perr
     | k0 :: rest => do
       let _ ← decLocalNsPath k0
       decIParamValues C fuel rest
   else do
-    let (_, kk) ← checkNode k "METHODCALL" ["NAME"] [] (some ["LOCALCLASSPATH", "LOCALINSTANCEPATH", "PARAMVALUE"]) false
+    let (_, kk) ← checkG "parse_methodcall" k
     let n ← decLocalPathsMatching C kk
     if n ≠ 1 then perr
     else decParamValuesMatching C fuel kk
 
 /-- mirrors parse_simpleexpreq / parse_expmethodcall / parse_expparamvalue -/
 def decSimpleExpReq (t : Xml) : R Unit := do
-  let (_, ks) ← checkNode t "SIMPLEEXPREQ" [] [] (some ["EXPMETHODCALL"]) false
-  let k ← oneChild ks ["EXPMETHODCALL"]
-  let (_, kk) ← checkNode k "EXPMETHODCALL" ["NAME"] [] (some ["EXPPARAMVALUE"]) false
+  let (_, ks) ← checkG "parse_simpleexpreq" t
+  let k ← oneChild ks (kidsG "parse_simpleexpreq" "one_child")
+  let (_, kk) ← checkG "parse_expmethodcall" k
   decExpParamValues C fuel kk
 
 /-- what `parse_cim` returns below CIM, as far as the callers look at it -/
@@ -403,23 +396,22 @@ inductive Msg where
 
 def startsWith (s : Str) (p : String) : Bool := p.toList.isPrefixOf s
 
-def messageKinds : List String :=
-  ["SIMPLEREQ", "MULTIREQ", "SIMPLERSP", "MULTIRSP", "SIMPLEEXPREQ", "MULTIEXPREQ", "SIMPLEEXPRSP", "MULTIEXPRSP"]
+def messageKinds : List String := kidsG "parse_message" "one_child"
 
 /-- mirrors parse_message (returns the parsed child) -/
 def decMessage (t : Xml) : R Msg := do
-  let (as, ks) ← checkNode t "MESSAGE" ["ID", "PROTOCOLVERSION"] [] none false
+  let (as, ks) ← checkG "parse_message" t
   if !startsWith (getAttrD as "PROTOCOLVERSION" "") "1." then .error .versionError
   else do
     let k ← oneChild ks messageKinds
     if k.name = "SIMPLERSP".toList then do
-      let (_, kk) ← checkNode k "SIMPLERSP" [] [] none false
-      let c ← oneChild kk ["METHODRESPONSE", "IMETHODRESPONSE"]
+      let (_, kk) ← checkG "parse_simplersp" k
+      let c ← oneChild kk (kidsG "parse_simplersp" "one_child")
       let r ← decResponseElem C fuel c
       pure (.simplersp r)
     else if k.name = "SIMPLEEXPRSP".toList then do
-      let (_, kk) ← checkNode k "SIMPLEEXPRSP" [] [] none false
-      let c ← oneChild kk ["EXPMETHODRESPONSE"]
+      let (_, kk) ← checkG "parse_simpleexprsp" k
+      let c ← oneChild kk (kidsG "parse_simpleexprsp" "one_child")
       let r ← decResponseElem C fuel c
       pure (.simpleexprsp r)
     else if k.name = "SIMPLEREQ".toList then do
@@ -432,20 +424,20 @@ def decMessage (t : Xml) : R Msg := do
 
 /-- mirrors parse_declaration / parse_declgroup -/
 def decDeclaration (t : Xml) : R Unit := do
-  let (_, ks) ← checkNode t "DECLARATION" [] [] none false
-  let g ← oneChild ks ["DECLGROUP"]
-  let (_, gk) ← checkNode g "DECLGROUP" [] [] none false
-  let c ← oneChild gk ["QUALIFIER.DECLARATION", "VALUE.OBJECT"]
+  let (_, ks) ← checkG "parse_declaration" t
+  let g ← oneChild ks (kidsG "parse_declaration" "one_child")
+  let (_, gk) ← checkG "parse_declgroup" g
+  let c ← oneChild gk (kidsG "parse_declgroup" "one_child")
   let _ ← decValueElem C fuel c
   pure ()
 
 /-- mirrors parse_cim: CIMVersionError / DTDVersionError are `versionError` -/
 def decCim (t : Xml) : R Msg := do
-  let (as, ks) ← checkNode t "CIM" ["CIMVERSION", "DTDVERSION"] [] none false
+  let (as, ks) ← checkG "parse_cim" t
   if !startsWith (getAttrD as "CIMVERSION" "") "2." then .error .versionError
   else if !startsWith (getAttrD as "DTDVERSION" "") "2." then .error .versionError
   else do
-    let k ← oneChild ks ["MESSAGE", "DECLARATION"]
+    let k ← oneChild ks (kidsG "parse_cim" "one_child")
     if k.name = "MESSAGE".toList then decMessage C fuel k
     else do
       decDeclaration C fuel k
